@@ -438,7 +438,12 @@ def wrap_ufunc(
                 r = convert_nan(r)
         except FoundError as ex:
             r = ex.err
-        except (ValueError, TypeError):
+        except BaseError as ex:
+            raise ex
+        except Exception:
+            # Any other failure of one element is the #VALUE! of that
+            # element (as `wrap_func` does for a scalar call), not of the
+            # whole array.
             r = Error.errors['#VALUE!']
         return r
 
